@@ -5,6 +5,7 @@ package main
 import (
 	"fmt"
 	"go/constant"
+	"go/token"
 	"go/types"
 	"sort"
 	"strings"
@@ -130,6 +131,9 @@ func checkC09(c *Ctx) Meta {
 	c.Rule("C09-GUARD", "every store to WorkSpace.state/using, every workSpaceIndex Set/Delete and every store to workSpaceList by code that can run concurrently with the API holds stateLock for writing (constructors and pre-start configuration excepted)", 10)
 	c.Rule("C09-QUEUE", "stop, remove and delete clear the space from the plotter queue before any state effect", 6)
 	c.Rule("C09-PLOTTER", "ws.Plot() is called only from the plotter; `go spacePlotter()` has exactly one site, in OnStart, which has no caller in the repository", 4)
+	c.Rule("C09-STEP3", "after a plot run the plotter moves the space to ready or mining only when the plot is complete: both transitions lie behind the false edge of `ws.Progress() < 100`, evaluated after ws.Plot() returned, on the space that was plotted; mining additionally behind wouldMining, ready behind its negation", 4)
+	c.Rule("C09-ITEM", "a request that arrives while a space is being plotted redirects the plot in flight: the item whose wouldMining PlotWS/MineWS/StopWS write is the very object the plotter reads (PoppedItem returns the stored pointer, not a copy)", 2)
+	c.Rule("C09-LIST", "bulk actions iterate a snapshot: no loop over the configured list (or over a helper result that may alias it) can reach an in-place modification of that list's backing array", 8)
 	c.Rule("C09-OFFER", "the miner asks for SFMining only; GetProofs hands to the proof workers only elements of getWsByFlags(workSpaceList, flags); getWsByFlags keeps a space only when the state set derived from the flags contains its state field; Info reports the same field", 4)
 
 	for _, spec := range []struct{ pkg, eng, label string }{{pkgCapacity, pkgEngine, "capacity"}, {pkgSkchia, pkgEngineV2, "skchia"}} {
@@ -138,6 +142,9 @@ func checkC09(c *Ctx) Meta {
 		checkStateGuard(c, spec.pkg, spec.label)
 		checkQueueCleared(c, spec.pkg, spec.label)
 		checkSinglePlotter(c, spec.pkg, spec.label)
+		checkStep3(c, "C09-STEP3", spec.pkg, spec.label)
+		checkPoppedItem(c, spec.pkg, spec.label)
+		checkListAliasing(c, spec.pkg, spec.label)
 	}
 	checkOffered(c)
 	return Meta{
@@ -714,6 +721,353 @@ func checkOffered(c *Ctx) {
 			c.OK(rule, "capacity.WorkSpace.Info:reports-state-field", c.Pos(f.Pos()), "WorkSpaceInfo.State is the same field the flag filter reads")
 		} else {
 			c.Bad(rule, "capacity.WorkSpace.Info:reports-state-field", c.Pos(f.Pos()), "state queries do not report the WorkSpace.state field that the flag filters use")
+		}
+	}
+}
+
+// checkStep3: C09-STEP3.
+func checkStep3(c *Ctx, rule, pkg, label string) {
+	short := strings.TrimPrefix(pkg, repoMod+"/")
+	sp := c.MustFn(rule, short, "(*SpaceKeeper).spacePlotter")
+	if sp == nil {
+		return
+	}
+	for _, f := range withClosures(sp) {
+		var plot *ssa.Call
+		allInstrs(f, func(in ssa.Instruction) {
+			if cl, ok := in.(*ssa.Call); ok && strings.HasSuffix(calleeID(cl), ".WorkSpace).Plot") {
+				plot = cl
+			}
+		})
+		if plot == nil {
+			continue
+		}
+		// completeness tests: Progress() < 100 on the plotted space, evaluated after Plot returned
+		type ctest struct {
+			iff           *ssa.If
+			done, notDone *ssa.BasicBlock
+		}
+		var tests []ctest
+		allInstrs(f, func(in ssa.Instruction) {
+			iff, ok := in.(*ssa.If)
+			if !ok {
+				return
+			}
+			cmp, ok := iff.Cond.(*ssa.BinOp)
+			if !ok {
+				return
+			}
+			prog, isC := cmp.X.(*ssa.Call)
+			k, isK := cmp.Y.(*ssa.Const)
+			if !isC || !isK || !strings.HasSuffix(calleeID(prog), ".WorkSpace).Progress") || k.Value == nil || !strings.HasPrefix(k.Value.ExactString(), "100") {
+				return
+			}
+			if !sameOriginValue(f, callRecv(prog), callRecv(plot)) || !reach(f, plot, nil, nil)(prog) {
+				return
+			}
+			b := iff.Block()
+			switch cmp.Op {
+			case token.LSS:
+				tests = append(tests, ctest{iff, b.Succs[1], b.Succs[0]})
+			case token.GEQ:
+				tests = append(tests, ctest{iff, b.Succs[0], b.Succs[1]})
+			}
+		})
+		n := 0
+		allInstrs(f, func(in ssa.Instruction) {
+			cl, isCall := in.(*ssa.Call)
+			if !isCall || len(cl.Call.Args) < 2 {
+				return
+			}
+			from, to := stateRef(cl.Call.Args[len(cl.Call.Args)-2]), stateRef(cl.Call.Args[len(cl.Call.Args)-1])
+			if from != "k:1" || (to != "k:2" && to != "k:3") {
+				return
+			}
+			if !reach(f, plot, nil, nil)(cl) {
+				return
+			}
+			n++
+			key := fmt.Sprintf("%s:spacePlotter:plotting->%s-only-when-complete", label, sname(to))
+			complete := false
+			for _, t := range tests {
+				if t.done != t.notDone && len(t.done.Preds) == 1 && t.done.Dominates(cl.Block()) {
+					complete = true
+				}
+			}
+			wm := false
+			for _, a := range fieldAccesses(f) {
+				if a.Kind == "load" && a.Field == "wouldMining" {
+					for _, t := range boolTestsOf(f, a.In.(ssa.Value)) {
+						if to == "k:3" && len(t.TrueSucc.Preds) == 1 && t.TrueSucc.Dominates(cl.Block()) {
+							wm = true
+						}
+						if to == "k:2" && len(t.FalseSucc.Preds) == 1 && t.FalseSucc.Dominates(cl.Block()) {
+							wm = true
+						}
+					}
+				}
+			}
+			switch {
+			case !complete:
+				c.Bad(rule, key, c.Pos(cl.Pos()), "after a plot run the space becomes "+sname(to)+" although `Progress() < 100` may hold (the transition is not behind the completeness test of the plotted space evaluated after Plot returned): a stopped or failed plot is offered as a finished table")
+			case !wm:
+				c.Bad(rule, key, c.Pos(cl.Pos()), "the choice between ready and mining after a plot does not follow the wouldMining request")
+			default:
+				c.OK(rule, key, c.Pos(cl.Pos()), "behind Progress() >= 100 (after Plot) and the wouldMining "+ifs(to == "k:3", "request", "negation"))
+			}
+		})
+		if n < 2 {
+			c.Bad(rule, label+":spacePlotter:step3-anchor", c.Pos(f.Pos()), fmt.Sprintf("reason=anchor-missing: expected the plotting->ready and plotting->mining steps after ws.Plot(), found %d", n))
+		}
+	}
+}
+
+// checkPoppedItem: C09-ITEM.
+func checkPoppedItem(c *Ctx, pkg, label string) {
+	rule := "C09-ITEM"
+	short := strings.TrimPrefix(pkg, repoMod+"/")
+	pi := c.MustFn(rule, short, "(*plotterQueue).PoppedItem")
+	if pi == nil {
+		return
+	}
+	key := label + ":PoppedItem:returns-the-stored-item"
+	bad := ""
+	for _, ret := range returnsOf(pi) {
+		valueOrigins(pi, ret.Results[0], func(root ssa.Value) {
+			switch x := root.(type) {
+			case *ssa.Const:
+				return
+			case *ssa.UnOp:
+				if _, f, _, ok := fieldOfValue(x); ok && f == "poppedItem" {
+					return
+				}
+			}
+			bad = c.Pos(ret.Pos())
+		})
+	}
+	// and the writers of wouldMining outside the constructor reach their object through PoppedItem / the queue
+	writers := 0
+	for fn := range c.AllFuncs {
+		if pkgOf(fn) != pkg {
+			continue
+		}
+		for _, a := range fieldAccesses(fn) {
+			if a.Kind == "store" && a.Field == "wouldMining" && !isFreshObject(a.Base) {
+				writers++
+			}
+		}
+	}
+	if bad != "" {
+		c.Bad(rule, key, bad, "PoppedItem hands out something other than the stored item (a copy): PlotWS/MineWS/StopWS then change wouldMining on an object the plotter never reads, so a request that arrives during plotting is lost")
+	} else if writers == 0 {
+		c.Bad(rule, key, c.Pos(pi.Pos()), "reason=anchor-missing: no writer of wouldMining on a shared item")
+	} else {
+		c.OK(rule, key, c.Pos(pi.Pos()), fmt.Sprintf("returns pq.poppedItem itself; %d writers of wouldMining reach the shared item", writers))
+	}
+}
+
+// checkListAliasing: C09-LIST.
+func checkListAliasing(c *Ctx, pkg, label string) {
+	rule := "C09-LIST"
+	isWSSlice := func(t types.Type) bool {
+		sl, ok := t.Underlying().(*types.Slice)
+		return ok && strings.HasSuffix(sl.Elem().String(), ".WorkSpace")
+	}
+	var fns []*ssa.Function
+	for fn := range c.AllFuncs {
+		if pkgOf(fn) == pkg && len(fn.Blocks) > 0 {
+			fns = append(fns, fn)
+		}
+	}
+	sort.Slice(fns, func(i, j int) bool { return FuncName(fns[i]) < FuncName(fns[j]) })
+	// origin of a slice value: the parameters / field it may alias (through Slice, Phi, and helper calls
+	// that may return their parameter)
+	returnsAlias := map[*ssa.Function]map[int]bool{}
+	writesBacking := map[*ssa.Function]map[int]bool{}
+	var aliasRoots func(fn *ssa.Function, v ssa.Value, depth int, out map[ssa.Value]bool)
+	visiting := map[ssa.Value]bool{}
+	aliasRoots = func(fn *ssa.Function, v ssa.Value, depth int, out map[ssa.Value]bool) {
+		if visiting[v] || depth > 6 {
+			return
+		}
+		visiting[v] = true
+		defer delete(visiting, v)
+		valueOrigins(fn, v, func(root ssa.Value) {
+			switch x := root.(type) {
+			case *ssa.Slice:
+				aliasRoots(fn, x.X, depth, out)
+			case *ssa.Call:
+				if g := x.Call.StaticCallee(); g != nil && pkgOf(g) == pkg && depth < 3 {
+					for i := range returnsAlias[g] {
+						if i < len(x.Call.Args) {
+							aliasRoots(fn, x.Call.Args[i], depth+1, out)
+						}
+					}
+					return
+				}
+				if b, ok := x.Call.Value.(*ssa.Builtin); ok && b.Name() == "append" {
+					aliasRoots(fn, x.Call.Args[0], depth, out)
+					return
+				}
+				out[root] = true
+			default:
+				out[root] = true
+			}
+		})
+	}
+	for round := 0; round < 3; round++ {
+		for _, fn := range fns {
+			for i, p := range fn.Params {
+				if !isWSSlice(p.Type()) {
+					continue
+				}
+				for _, ret := range returnsOf(fn) {
+					for _, r := range ret.Results {
+						if !isWSSlice(r.Type()) {
+							continue
+						}
+						roots := map[ssa.Value]bool{}
+						aliasRoots(fn, r, 0, roots)
+						if roots[p] {
+							if returnsAlias[fn] == nil {
+								returnsAlias[fn] = map[int]bool{}
+							}
+							returnsAlias[fn][i] = true
+						}
+					}
+				}
+				allInstrs(fn, func(in ssa.Instruction) {
+					hit := func(dst ssa.Value) {
+						roots := map[ssa.Value]bool{}
+						aliasRoots(fn, dst, 0, roots)
+						if roots[p] {
+							if writesBacking[fn] == nil {
+								writesBacking[fn] = map[int]bool{}
+							}
+							writesBacking[fn][i] = true
+						}
+					}
+					switch x := in.(type) {
+					case *ssa.Call:
+						if b, ok := x.Call.Value.(*ssa.Builtin); ok {
+							if b.Name() == "append" {
+								// append(src[:i], …) writes into src's array when the capacity allows
+								if sl, isS := x.Call.Args[0].(*ssa.Slice); isS {
+									hit(sl.X)
+								}
+							}
+							if b.Name() == "copy" {
+								hit(x.Call.Args[0])
+							}
+						}
+					case *ssa.Store:
+						if ia, ok := x.Addr.(*ssa.IndexAddr); ok && isWSSlice(ia.X.Type()) {
+							hit(ia.X)
+						}
+					}
+				})
+			}
+		}
+	}
+	isListField := func(v ssa.Value) bool {
+		_, f, _, ok := fieldOfValue(v)
+		return ok && f == "workSpaceList"
+	}
+	aliasesList := func(fn *ssa.Function, v ssa.Value) bool {
+		roots := map[ssa.Value]bool{}
+		aliasRoots(fn, v, 0, roots)
+		for r := range roots {
+			if isListField(r) {
+				return true
+			}
+		}
+		return false
+	}
+	// functions that (transitively) modify the list's array in place
+	mutates := map[*ssa.Function]bool{}
+	for round := 0; round < 6; round++ {
+		for _, fn := range fns {
+			if mutates[fn] {
+				continue
+			}
+			allInstrs(fn, func(in ssa.Instruction) {
+				cl, ok := in.(ssa.CallInstruction)
+				if !ok {
+					return
+				}
+				g := cl.Common().StaticCallee()
+				if g == nil || pkgOf(g) != pkg {
+					return
+				}
+				if mutates[g] {
+					mutates[fn] = true
+				}
+				for i := range writesBacking[g] {
+					if i < len(cl.Common().Args) && aliasesList(fn, cl.Common().Args[i]) {
+						mutates[fn] = true
+					}
+				}
+			})
+		}
+	}
+	n := 0
+	for _, fn := range fns {
+		// index loops over a []*WorkSpace: IndexAddr in a re-entered block
+		seen := map[ssa.Value]bool{}
+		allInstrs(fn, func(in ssa.Instruction) {
+			ia, ok := in.(*ssa.IndexAddr)
+			if !ok || !isWSSlice(ia.X.Type()) || !blockReentered(fn, ia) || seen[ia.X] {
+				return
+			}
+			seen[ia.X] = true
+			if !aliasesList(fn, ia.X) {
+				return
+			}
+			n++
+			key := fmt.Sprintf("%s:%s:loop-over-list#%d", label, fn.Name(), len(seen))
+			// does the loop body reach an in-place mutation?
+			var via ssa.Instruction
+			r := reach(fn, ia, nil, nil)
+			allInstrs(fn, func(x ssa.Instruction) {
+				cl, ok := x.(ssa.CallInstruction)
+				if !ok || !r(x) || !reach(fn, x, nil, nil)(ia) {
+					return
+				}
+				if g := cl.Common().StaticCallee(); g != nil && pkgOf(g) == pkg {
+					if mutates[g] {
+						via = x
+					}
+					for i := range writesBacking[g] {
+						if i < len(cl.Common().Args) && aliasesList(fn, cl.Common().Args[i]) {
+							via = x
+						}
+					}
+				}
+			})
+			if via != nil {
+				c.Bad(rule, key, c.Pos(via.Pos()), "the loop iterates a slice that may share its array with the configured list while its body (through "+shortID(calleeID(via))+") modifies that array in place: elements are skipped or visited twice (a bulk remove/delete leaves a space configured and reports another as missing)")
+			} else {
+				c.OK(rule, key, c.Pos(ia.Pos()), "the body cannot modify the array being iterated")
+			}
+		})
+	}
+	if n == 0 {
+		// today every bulk loop iterates a fresh getWsByFlags result; keep a positive anchor
+		gw := c.Fn(strings.TrimPrefix(pkg, repoMod+"/"), "getWsByFlags")
+		if gw == nil {
+			c.Bad(rule, label+":anchor", "", "reason=anchor-missing: getWsByFlags")
+			return
+		}
+		if len(returnsAlias[gw]) == 0 {
+			c.OK(rule, label+":getWsByFlags:fresh-result", c.Pos(gw.Pos()), "getWsByFlags never returns its argument: bulk loops iterate a snapshot")
+		}
+	}
+	del := c.Fn(strings.TrimPrefix(pkg, repoMod+"/"), "deleteFromSlice")
+	if del != nil {
+		if len(writesBacking[del]) == 0 {
+			c.OK(rule, label+":deleteFromSlice:copy-on-write", c.Pos(del.Pos()), "deleteFromSlice builds a new array")
+		} else {
+			c.Note("%s: deleteFromSlice modifies its argument's array in place (allowed as long as no loop iterates an alias)", label)
 		}
 	}
 }
